@@ -40,12 +40,17 @@ PLAN = [(0, EM, 0.3), (1, EM, 0.25), (2, EM, 0.2), (2, {}, 0.15), (0, EM7, 0.1)]
 
 
 def _solve(args):
-    smts, timeout_ms, expect_sat = args
+    smts, timeout_ms, expect_sat = args[:3]
+    hint = args[3] if len(args) > 3 else None
     t0 = time.time()
     try:
         ctx = z3.Context()
         last = ("unknown", "")
         plan = [(0, {}, 0.5), (0, EM, 0.5)] if expect_sat else PLAN
+        if hint is not None and not expect_sat:
+            # ordering hint from the committed ledger (the tier that discharged this obligation last time): try it first
+            first = [p for p in plan if p[0] == hint]
+            plan = first + [p for p in plan if p[0] != hint]
         for tier, cfg, share in plan:
             if smts[tier] is None:
                 continue
@@ -82,7 +87,8 @@ def discharge(obls, timeout_s=60, procs=None, retry=True):
         if o.expect_sat:
             payload.append(((obligation_smt2(o, 0), None, None), int(timeout_s * 1000), True))
         else:
-            payload.append((tuple(obligation_smt2(o, t) for t in (0, 1, 2)), int(getattr(o, "timeout", timeout_s) * 1000), False))
+            payload.append((tuple(obligation_smt2(o, t) for t in (0, 1, 2)), int(getattr(o, "timeout", timeout_s) * 1000), False,
+                            getattr(o, "hint", None)))
     if len(jobs) == 1 or procs == 1:
         results = [_solve(p) for p in payload]
     else:
